@@ -1188,8 +1188,10 @@ class Oracles:
         if rm.kind == "map":
             return len(c.args) == 1 and c.args[0] is el and not c.kwargs
         if rm.kind == "starmap":
-            return len(c.args) == len(el) and all(x is y for x, y in zip(c.args, el)) and not c.kwargs
-        return not c.args and set(c.kwargs) == set(el) and all(c.kwargs[k] is el[k] for k in el)
+            want = list(el)        # func(*x): whatever iterating the element yields
+            return len(c.args) == len(want) and all(x is y or (isinstance(y, str) and x == y) for x, y in zip(c.args, want)) and not c.kwargs
+        keys = list(el.keys())
+        return not c.args and set(c.kwargs) == set(keys) and all(c.kwargs[k] is el[k] for k in keys)
 
     def args_ok_exact(self, rm: ReqM, c: CallRec) -> bool:
         if rm.kind in ("apply", "start"):
